@@ -8,8 +8,8 @@ mode "delay": runs the REAL dawgie.pl.schedule._delay for a specification built
 mode "shape": offers every shape of dawgie.MOMENT (fields absent / well typed /
     ill typed) to the REAL rule_10, applied the way tools.compliant applies it to
     a task module's events(); an accepted shape is evaluated by the real _delay.
-mode "fire":  drives the REAL schedule.periodics / defer / next_job_batch /
-    complete (through farm.dispatch and farm.Hand, see harness/sched_h.World) on
+mode "fire":  drives the REAL schedule.periodics / defer / pause / unpause /
+    next_job_batch / complete (through farm.dispatch and farm.Hand, see harness/sched_h.World) on
     a generated engine with one or two periodic nodes in different packages (the
     short algorithm names may coincide: t0.a and t1.a); wall clock = virtual reactor
     clock (MemoryReactorClock); the reactor's delayed calls are the timers.
@@ -246,7 +246,7 @@ def run_fire(job):
     shadow(False)
     w = sched_h.World(fire_desc(cfg), ['T1'])
     r0 = REACTOR.seconds()
-    state = {'up': False, 'defers': 0, 'err': ''}
+    state = {'up': False, 'defers': 0, 'err': '', 'paused': False}
 
     def instant():
         return cfg['start'] + int(round(REACTOR.seconds() - r0))
@@ -333,6 +333,31 @@ def run_fire(job):
             log('Advance', dt=int(round(left)))
         return True
 
+    def ev_latetick(late):
+        '''the reactor is busy / the host was suspended: the earliest request runs `late` seconds after it was due'''
+        calls = REACTOR.getDelayedCalls()
+        if not state['up'] or not calls:
+            return False
+        first = min(c.getTime() for c in calls)
+        dt = first - REACTOR.seconds()
+        if instant() + dt + late >= horizon or any(first < c.getTime() <= first + late for c in calls):
+            return False
+        REACTOR.advance(dt + late)
+        log('LateTick', dt=late)
+        return True
+
+    def ev_pause(on):
+        '''the operator holds / releases the pipeline (what the front end's pause button calls)'''
+        if not state['up'] or state['paused'] == on:
+            return False
+        state['paused'] = on
+        if on:
+            schedule.pause()
+        else:
+            schedule.unpause()
+        log('Pause' if on else 'Unpause')
+        return True
+
     def ev_boot():
         if state['up']:
             return False
@@ -389,12 +414,21 @@ def run_fire(job):
                 ok = ev_complete(e['n'], e['t'])
             elif ev == 'NewTarget':
                 ok = ev_newtarget()
+            elif ev == 'LateTick':
+                ok = ev_latetick(e['dt'])
+            elif ev == 'Pause':
+                ok = ev_pause(True)
+            elif ev == 'Unpause':
+                ok = ev_pause(False)
+            elif ev == 'Skip':  # the clock of a held pipeline moves: the polls on the way are logged as Ticks
+                ok = state['paused'] and ev_advance(e['dt'])
             else:
                 raise ValueError(ev)
             skipped += 0 if ok else 1
         if job.get('drain', True) and state['up']:
             # drain with the monitors on: everything queued runs and answers,
-            # then the clock moves on by a week and by a month
+            # then the clock moves on by a week and by a month (a held pipeline is released first)
+            ev_pause(False)
             for dt in (0, 7 * 86400, 31 * 86400):
                 if dt:
                     ev_advance(dt)
@@ -409,6 +443,7 @@ def run_fire(job):
                         break
     finally:
         schedule.defer = orig_defer
+        schedule.unpause()
         shadow(False)
         for c in list(REACTOR.getDelayedCalls()):
             c.cancel()
